@@ -385,6 +385,33 @@ def one_stack(b, stack, nondim, solve_for, analytic=None):
             identity(b, f"{KEY}::interface[{tag}]:{i}|{i + 1}:{name}#{ty}", f"interface {stack[i]}|{stack[i + 1]}: " + ", ".join(what), diffs, dict(meta, interface=i, clauses=what))
 
 
+UP_CARRIED = {"last_layer_upper_gravity", "last_layer_upper_density", "layer_below_num_sols", "uppermost_y_per_solution_ptr", "error",
+              # weak (element-wise) updates of scratch arrays that are completely rewritten in every iteration, an inner loop variable read after its loop,
+              # and the conditionally assigned integrator step
+              "atols_ptr", "rtols_ptr", "initial_y_ptr", "initial_y_only_real_ptr", "slice_i", "max_step_to_use"}
+DOWN_CARRIED = {"layer_above_constant_vector_ptr", "layer_above_is_incomp", "layer_above_is_static", "layer_above_lower_density", "layer_above_lower_gravity", "layer_above_type",
+                "uppermost_y_per_solution_ptr", "error"}
+
+
+def layer_loops(b):
+    """induction over the number of layers: the interface obligations are proved for every adjacent pair of layer kinds with the lower layer's solutions and the
+    upper layer's constants OPAQUE, i.e. for a generic induction step; that the step is the whole story needs the layer loops to carry nothing else
+    from one layer to the next.  Checked syntactically on the real loops: the loop-carried names are within the expected set."""
+    import ast
+    fn = Fn(SM.FSOL, "cf_radial_solver")
+    loops = [n for n in ast.walk(fn.node) if isinstance(n, ast.For) and ast.unparse(n.iter) == "range(num_layers)"]
+    up = [n for n in loops if "cf_solve_upper_y_at_interface" in ast.unparse(n)]
+    down = [n for n in loops if "cf_top_to_bottom_interface_bc" in ast.unparse(n)]
+    if len(up) != 1 or len(down) != 1:
+        b.subset_exits.append(f"{KEY}: layer loops not found ({len(up)}, {len(down)})")
+        return
+    for lbl, lp, allowed in (("upward", up[0], UP_CARRIED), ("downward", down[0], DOWN_CARRIED)):
+        got = loop_carried(lp)
+        extra = sorted(got - allowed)
+        ground(b, f"{KEY}::loop_carried_state[{lbl}]", KEY, f"the {lbl} layer loop carries from one layer to the next only the expected state ({', '.join(sorted(allowed))})", not extra,
+               detail=f"carried: {sorted(got)}" if not extra else f"unexpected loop-carried name(s): {extra}", refuted_model=dict(unexpected=str(extra)) if extra else None)
+
+
 def stacks_for(tier):
     out = []
     triples = TRIPLES if tier == "quick" else [[a_, b_, c_] for a_ in SINGLES for b_ in SINGLES for c_ in SINGLES]      # thorough: every triple of layer kinds
@@ -407,13 +434,15 @@ def build(tier="quick", seed=0):
     sc = stacks_for(tier)
     for stack, nd, sf in sc:
         one_stack(b, stack, nd, sf)
+    layer_loops(b)
     from contracts import tv_radial
     tv_radial.interfaces(b, seed)
     b.samples.append(dict(stacks=len(sc), example=dict(stack=sc[100][0], nondim=sc[100][1], solve_for=list(sc[100][2] or ["<None>"]))))
     b.explanation = ("whole-function symbolic execution of the real cf_radial_solver and callees per layer stack; surface clauses proved from the zgesv contract by an exact linear "
                      "certificate, interface clauses as exact rational identities in the opaque layer solutions")
-    b.assume("layer stacks enumerated: all 1- and 2-layer stacks over the 8 layer kinds (every adjacent pair of kinds), 12 three-layer and 5 four/five-layer stacks, 4 slices per layer; "
-             "loops over layers are executed for these concrete stacks (interface handling depends only on the adjacent pair and the propagated constants)")
+    b.assume("layer stacks enumerated: all 1- and 2-layer stacks over the 8 layer kinds (every adjacent pair of kinds), 12 three-layer and 5 four/five-layer stacks, 4 slices per layer. "
+             "Generalisation to any layer count is an induction whose STEP is machine-checked (every adjacent pair, lower solutions and upper constants opaque) and whose frame - the layer "
+             "loops carry nothing but the expected state - is checked syntactically (::loop_carried_state); the induction itself is an argument, not an obligation")
     b.assume("CyRK contract: the first output row of each layer integration equals the initial vector passed in, other rows arbitrary (opaque symbols); ZGESV contract: info = 0 => A c = b")
     b.assume("static-liquid quantities y7 are not exposed in the result array: their clauses are stated on the collapsed layer vectors (constants x stored solutions) recorded at the real collapse call")
     b.assume("stacks whose outermost layer is a dynamic liquid have no successful solution on the pinned source (C06 finding) and generate no obligation while that holds")
